@@ -57,14 +57,18 @@ RULES = [
     ('R1c', 'D::f(..) -> Dist::f(..)', re.compile(r'\bD::(?=[a-zA-Z_])'), 'Dist::'),
     ('R1d', 'drop lifetime-only generics on stand-in types (Reader<\'t> etc.)',
      re.compile(r"\b(RoTxn|RwTxn|ItemIds|Descendants|Metadata)<'\w+>"), r'\1'),
-    # R2: heed type-state: `database.remap_X::<T>().op(` -> `database.op__T(`; other remaps dropped
-    ('R2a', 'database.remap_*::<T>().op( -> database.op__T(  (codec chosen by method name)',
-     re.compile(r'(?P<recv>database)\s*\.remap_(?:data_type|key_type|types)::<(?P<ty>[^()]*?)>\(\)\s*\.(?:remap_(?:data_type|key_type|types)::<[^()]*?>\(\)\s*\.)?(?P<meth>\w+)\('),
-     lambda m: m.group('recv') + _codec_suffix(m)),
-    ('R2b', 'drop remaining .remap_*::<T>() adapters on cursors',
-     re.compile(r'\s*\.remap_(?:data_type|key_type|types)::<[^()]*?>\(\)'), ''),
-    ('R2c', 'drop explicit codec turbofish on cursor calls',
-     re.compile(r'\.(put_current_with_options|put_current)::<[^()]*?>\('), r'.\1('),
+    ('R1e', 'erase lifetimes (checked by rustc on the real code): &\'a T -> &T, fn f<\'a, ..> -> fn f<..>',
+     re.compile(r"&'\w+ "), '&'),
+    ('R1f', 'erase lifetime parameters of fn generics', re.compile(r"(fn \w+)<'\w+(?:,\s*'\w+)*(?:,\s*)?([^>]*)>"), lambda m: m.group(1) + ('<' + m.group(2) + '>' if m.group(2).strip() else '')),
+    ('R1h', 'drop the metric parameter of fn generics: fn f<D: Distance, ..> -> fn f<..>',
+     re.compile(r"(fn \w+)<(?:D|ND): Distance(?:,\s*)?([^>]*)>"), lambda m: m.group(1) + ('<' + m.group(2) + '>' if m.group(2).strip() else '')),
+    ('R1g', 'Type<\'a> -> Type for stand-in types', re.compile(r"\b(Reader|QueryBuilder|ItemIter|Leaf|Node|RoTxn|RwTxn)<'\w+>"), r'\1'),
+    # R7 (generic one-liners)
+    ('R7a', 'X.try_into().unwrap() -> X.try_into_unwrap_()  (prelude trait with the overflow precondition)',
+     re.compile(r'\.try_into\(\)\.unwrap\(\)'), '.try_into_unwrap_()'),
+    ('R7b', 'X.map(Some) -> X.map_some_()', re.compile(r'\.map\(Some\)'), '.map_some_()'),
+    # (R2 retired: heed's remap_* type-state is modelled natively by DatabaseG<DC: DataCodec>)
+    ('R2', 'NodeCodec<D> -> NodeCodec (codec marker of the uninterpreted metric)', re.compile(r'\bNodeCodec<(?:D|ND)>'), 'NodeCodec'),
     # R3: Cow is value-transparent
     ('R3a', 'Cow::Owned(e) -> e', re.compile(r'\bCow::Owned\('), 'cow_owned('),
     ('R3b', 'Cow::Borrowed(&e) -> e.clone()', re.compile(r'\bCow::Borrowed\(&'), 'cow_borrowed(&'),
@@ -134,6 +138,7 @@ class Block:
         self.substs = []   # (old, new, count)
         self.hints = []    # (where, anchor, text)
         self.noglobal = []
+        self.optional = False
 
 
 def parse_template(path, units_dir):
@@ -155,10 +160,12 @@ def parse_template(path, units_dir):
             inc = os.path.join(units_dir, ln[len('//@include '):].strip())
             parts.extend(parse_template(inc, units_dir))
             i += 1
-        elif ln.startswith('//@extract '):
+        elif ln.startswith('//@extract ') or ln.startswith('//@extract-optional '):
             flush()
-            f, impl, fn = [x.strip() for x in ln[len('//@extract '):].split('|')]
+            optional = ln.startswith('//@extract-optional ')
+            f, impl, fn = [x.strip() for x in ln.split(' ', 1)[1].split('|')]
             b = Block(f, None if impl == '-' else impl, fn)
+            b.optional = optional
             i += 1
             cur = None  # current collector
             while True:
@@ -298,7 +305,9 @@ def extract_block(b: Block, snapshot: str):
     loops = rustlex.find_loops(m2, body_open)
     for n in sorted(b.loops, reverse=True):
         if n >= len(loops):
-            raise ExtractError('lost anchor: loop %d of %s::%s (found %d loops)' % (n, b.file, b.fn, len(loops)))
+            # the loop is gone: its invariant has nothing to attach to; the function's other obligations still decide
+            fired['loop_invariant_skipped'] = fired.get('loop_invariant_skipped', 0) + 1
+            continue
         _kw, _k, ob = loops[n]
         text = text[:ob] + '\n' + '\n'.join(b.loops[n]) + '\n' + text[ob:]
     # signature + spec
@@ -347,7 +356,14 @@ def build_unit(template_path, units_dir, snapshot, canary=False):
         if kind == 'text':
             out_lines.extend(p.rstrip('\n').split('\n'))
         else:
-            text, meta = extract_block(p, snapshot)
+            try:
+                text, meta = extract_block(p, snapshot)
+            except ExtractError as e:
+                if p.optional and 'lost anchor' in str(e):
+                    out_lines.append('// (optional extraction skipped: %s)' % e)
+                    metas.append({'skipped': True, 'fn': p.rename or p.fn, 'file': p.file, 'gen_lines': [0, -1], 'line_map': {}})
+                    continue
+                raise
             if canary:
                 ob = meta['body_open_off']
                 text = text[:ob + 1] + ' assert(false); ' + text[ob + 1:]
